@@ -194,31 +194,76 @@ def run(ctx, ck):
           'junction rows of both ends print real, imaginary, magnitude, phase of the junction current alike'
           if shapes[0] == shapes[1] else 'end 1: %s / end 2: %s' % (shapes[0][:90], shapes[1][:90]))
 
-    # pulse_iter
+    # pulse_iter: what it hands out, as a closed sequence (helpers / `yield from` looked through):
+    # for every entry E of self.list (in any order):  (E[1].end_segs[E[2]], E[3])
+    from ..symx import generator_sequences, _is_each
+
+    def permutation_of_list(it_):
+        """is the iterable every entry of self.list exactly once (in some order)?"""
+        t_ = norm(it_)
+        if t_ == 'self.list':
+            return True
+        if isinstance(it_, ast.Call) and isinstance(it_.func, ast.Name) and it_.func.id in ('sorted', 'reversed', 'list', 'tuple', 'iter') \
+           and len(it_.args) == 1 and all(k_.arg in ('key', 'reverse') for k_ in it_.keywords):
+            return permutation_of_list(it_.args[0])
+        return False
+    def strip_identity(it_):
+        """_each((X[k][0], ..., X[k][n-1]), X) and _each(X[k], X) hand out the entries of X themselves"""
+        while _is_each(it_):
+            e_, x_ = it_.args
+            xt = norm(x_)
+            et = re.sub(r'_k\d+', 'K', norm(e_))
+            if et == '%s[K]' % xt or (isinstance(e_, ast.Tuple) and len(e_.elts) == 4 and all(
+                    re.sub(r'_k\d+', 'K', norm(y_)) == '%s[K][%d]' % (xt, i_) for i_, y_ in enumerate(e_.elts))):
+                it_ = x_
+            else:
+                break
+        return it_
     g = m.func('mininec.Connected_Geobj.pulse_iter')
-    ys = [n for n in walk_no_nested(g.node) if isinstance(n, ast.Yield)]
-    ok = False
-    why = 'expected a single yield inside a loop over self._iter()'
-    ls = [l for l in loops_in(g.node) if isinstance(l, ast.For)]
-    if len(ys) == 1 and len(ls) == 1 and norm(ls[0].iter) == 'self._iter()' and \
-       isinstance(ls[0].target, ast.Tuple) and len(ls[0].target.elts) == 4:
-        t = [e.id if isinstance(e, ast.Name) else '?' for e in ls[0].target.elts]
-        y = ys[0].value
-        ok = isinstance(y, ast.Tuple) and len(y.elts) == 2 and \
-            norm(y.elts[0]) == '%s.end_segs[%s]' % (t[1], t[2]) and norm(y.elts[1]) == t[3]
-        why = 'yields %s for (geobj, owner, idx, sign) = %s' % (norm(y), t)
-        mn, mx = loop_reaches_on_all_paths(ctx.flow(g), ls[0], lambda n: n.stmt is not None and any(
-            isinstance(x, ast.Yield) for x in ast.walk(n.stmt)))
-        ok = ok and (mn, mx) == (1, 1)
-    ck.ob('R-EXH.pulse-iter', g.qual, ok, g.loc(), why)
-    it = m.func('mininec.Connected_Geobj._iter')
-    ls = [l for l in loops_in(it.node) if isinstance(l, ast.For)]
-    ok = len(ls) == 1 and 'self.list' in norm(ls[0].iter)
-    if ok:
-        mn, mx = loop_reaches_on_all_paths(ctx.flow(it), ls[0], lambda n: n.stmt is not None and any(
-            isinstance(x, ast.Yield) for x in ast.walk(n.stmt)))
-        ok = (mn, mx) == (1, 1)
-    ck.ob('R-EXH.pulse-iter', it.qual, ok, it.loc(), '_iter yields every entry of self.list once')
+    ok = True
+    why = None
+    n_each = 0
+    for conds_, seq in generator_sequences(ctx, g):
+        if isinstance(seq, ast.List) and not seq.elts:
+            if not any(k_ == 'loop-skipped' for k_, t_ in conds_):
+                ok, why = False, 'a path hands out nothing although the list has entries'
+            continue
+        if not _is_each(seq):
+            ok, why = False, 'hands out %s' % norm(seq)[:120]
+            continue
+        n_each += 1
+        elt, it_ = seq.args
+        it_ = strip_identity(it_)
+        itx = norm(it_)
+        k_ = sorted(set(re.findall(r'_k\d+', norm(elt))))
+        want = '(%s[K][1].end_segs[%s[K][2]], %s[K][3])' % (itx, itx, itx)
+        got = re.sub(r'_k\d+', 'K', norm(elt))
+        if not permutation_of_list(it_):
+            ok, why = False, 'iterates %s, not every entry of self.list' % itx[:80]
+        elif got != want or len(k_) != 1:
+            ok, why = False, 'yields %s for the entry (geobj, owner, end, sign) = %s[K]' % (got[:120], itx[:40])
+        elif why is None:
+            why = 'for every entry E of %s: (E[1].end_segs[E[2]], E[3])' % itx[:60]
+    ok = ok and n_each >= 1
+    ck.ob('R-EXH.pulse-iter', g.qual, ok, g.loc(), why or 'no loop over the connection list')
+    if 'mininec.Connected_Geobj._iter' in m.funcs:
+        it = m.func('mininec.Connected_Geobj._iter')
+        seqs = generator_sequences(ctx, it)
+        ok = bool(seqs)
+        for conds_, seq in seqs:
+            if isinstance(seq, ast.List) and not seq.elts and any(k_ == 'loop-skipped' for k_, t_ in conds_):
+                continue
+            if _is_each(seq) and strip_identity(seq) is not seq:
+                ok = ok and permutation_of_list(strip_identity(seq))
+            elif _is_each(seq):
+                ok = ok and permutation_of_list(seq.args[1]) and \
+                    re.sub(r'_k\d+', 'K', norm(seq.args[0])) in ('%s[K]' % norm(seq.args[1]), re.sub(
+                        r'_k\d+', 'K', norm(ast.Tuple(elts=[ast.Subscript(value=ast.Subscript(
+                            value=seq.args[1], slice=ast.Name(id='K', ctx=ast.Load()), ctx=ast.Load()),
+                            slice=ast.Constant(value=i_), ctx=ast.Load()) for i_ in range(4)], ctx=ast.Load()))))
+            else:
+                ok = ok and permutation_of_list(seq)
+        ck.ob('R-EXH.pulse-iter', it.qual, ok, it.loc(), '_iter yields every entry of self.list once')
     add = m.func('mininec.Connected_Geobj.add')
     apps = [c for c in walk_no_nested(add.node) if isinstance(c, ast.Call) and
             isinstance(c.func, ast.Attribute) and c.func.attr == 'append' and dotted(c.func.value) == 'self.list']
